@@ -65,10 +65,12 @@ var typeOpts = gen.TypeOpts{Dynamic: true, Optional: true, Capsule: true, TwinKe
 // run holds per-batch state: local counters for the hot loops (flushed into the
 // context at the end) and the context itself.
 type run struct {
-	c    *core.Ctx
-	cnt  map[string]*int64
-	nsmp map[string]int
-	src  string // which part of the workload is running (for the violation counters)
+	kept     []keptJSON
+	keptNext int
+	c        *core.Ctx
+	cnt      map[string]*int64
+	nsmp     map[string]int
+	src      string // which part of the workload is running (for the violation counters)
 }
 
 // viol reports a violation and counts it per part of the workload and per site,
@@ -463,6 +465,7 @@ func (r *run) checkJSON(T *m.TNode, ty cty.Type, full bool) {
 		r.viol("Type.MarshalJSON", "output is not valid JSON", "", tyText(T, ty), string(buf))
 		return
 	}
+	r.retainJSON(T, ty, buf)
 	r.roundTripBack("Type.UnmarshalJSON", T, ty, buf, func(b []byte) (cty.Type, error) {
 		var back cty.Type
 		e := back.UnmarshalJSON(b)
@@ -643,6 +646,43 @@ func (r *run) checkLaws(Ts []*m.TNode, tys []cty.Type, tag string) {
 	}
 }
 
+// retainJSON keeps the byte slices MarshalJSON returned for the last few types (the slices themselves, not
+// copies, next to a private copy taken at once) and re-reads them after every later serialisation: a type
+// "survives JSON serialization" only if the bytes the caller was handed stay what they were - a serialiser
+// that returns a view of a pooled or reused buffer hands out bytes that the NEXT call rewrites.
+func (r *run) retainJSON(T *m.TNode, ty cty.Type, buf []byte) {
+	for i := range r.kept {
+		k := &r.kept[i]
+		if k.reported || bytes.Equal(k.live, k.copy) {
+			continue
+		}
+		k.reported = true
+		r.viol("Type.MarshalJSON", "bytes returned earlier were changed by a later serialisation", "history", k.desc,
+			fmt.Sprintf("returned %s; the same slice now reads %s (after marshalling %s)", clipB(k.copy), clipB(k.live), tyText(T, ty)))
+	}
+	r.bump("oracle:json:earlier-results-stay-stable")
+	e := keptJSON{live: buf, copy: append([]byte(nil), buf...), desc: tyText(T, ty)}
+	if len(r.kept) < 8 {
+		r.kept = append(r.kept, e)
+	} else {
+		r.kept[r.keptNext%8] = e
+	}
+	r.keptNext++
+}
+
+type keptJSON struct {
+	live, copy []byte
+	desc       string
+	reported   bool
+}
+
+func clipB(b []byte) string {
+	if len(b) > 300 {
+		return string(b[:300]) + "..."
+	}
+	return string(b)
+}
+
 // ------------------------------------------------------------------------ Run
 
 func (Driver) Run(c *core.Ctx) {
@@ -675,7 +715,10 @@ func (r *run) sampled() {
 		}
 		// prefer deep origins: redraw (a bounded number of times) while the tree is shallower than 3
 		var T *m.TNode
-		if rng.Chance(1, 4) {
+		if rng.Chance(1, 40) {
+			T = veryWideType(rng)
+			r.bump("sampled:origin-drawn-very-wide")
+		} else if rng.Chance(1, 4) {
 			// wide shapes: tuples / objects of up to 6 members, half of the attributes optional
 			budget := 40
 			T = wideType(rng, depth, &budget)
